@@ -56,8 +56,14 @@ ParamCopy == {M(<<Ins("move", 0, 1, 0), Br("if-lez", 2, 4), ow, Ins("mul-int", 0
 \* a loop left by the taken branch of its last test (p0 = v1, p1 = v2):  n = b & 3; s = 0; do { s += a; n-- } while (!(n <= 0)); return s
 ExitByTakenBranch == {M(<<InsLit("and-int/lit8", 2, 2, 3), InsLit("const/4", 0, 0, 0), Ins("add-int/2addr", 0, 1, 0), InsLit("add-int/lit8", 2, 2, -1),
                            Br(tst, 2, 7), [I(0) EXCEPT !.op = "goto", !.t = 3], Ret(0)>>, 3, 1, <<"I", "I">>, "I") : tst \in {"if-lez"}}     \* (if-eqz would run 2^32 times for n = 0)
+\* a switch case whose body returns on one path and falls to the end of the switch on the other (p0 = v1, p1 = v2):
+\*   r = 0; switch (x) { case 0: if (y > 0) return 7; r = 5; break;  case 1: r = 3; }  return r + 1
+CaseWithReturn == {M(<<InsLit("const/4", 0, 0, 0), [I(0) EXCEPT !.op = sw, !.a = 1, !.keys = <<Zero(4), One(4)>>, !.tgts = <<4, 9>>],
+                        [I(0) EXCEPT !.op = "goto", !.t = 10], Br("if-lez", 2, 7), InsLit("const/4", 0, 0, 7), Ret(0), InsLit("const/4", 0, 0, 5),
+                        [I(0) EXCEPT !.op = "goto", !.t = 10], InsLit("const/4", 0, 0, 3), InsLit("add-int/lit8", 0, 0, 1), Ret(0)>>, 3, 1, <<"I", "I">>, "I") :
+                     sw \in {"packed-switch", "sparse-switch"}}
 Methods ==
-  Aliased \cup Propagated \cup Widened \cup Hoisted \cup ParamCopy \cup ExitByTakenBranch \cup
+  Aliased \cup Propagated \cup Widened \cup Hoisted \cup ParamCopy \cup ExitByTakenBranch \cup CaseWithReturn \cup
   {M(<<Ins(nm \o "-int", 0, 2, 3), Ret(0)>>, 4, 2, <<"I", "I">>, "I") : nm \in IntAlu}
   \cup {M(<<Ins(nm \o "-int/2addr", 2, 3, 0), Ret(2)>>, 4, 2, <<"I", "I">>, "I") : nm \in IntAlu}
   \cup {M(<<InsLit(nm \o "-int/lit16", 0, 1, lt), Ret(0)>>, 2, 1, <<"I">>, "I") : nm \in Lit16Alu, lt \in Lits16}
